@@ -89,6 +89,8 @@ impl Modulator for Tweener {
 			if !started {
 				return;
 			}
+			// once a tween has begun it no longer depends on the clock it waited for
+			tween.start_time = StartTime::Immediate;
 			*time += dt;
 			if *time >= tween.duration.as_secs_f64() {
 				self.value = values.1;
